@@ -35,6 +35,9 @@ type Opts struct {
 	MaxBPs   int
 	ValueCap float64
 	Fanout   bool // bias towards re-using recent results (reconvergence)
+	// NoProvisos: ignore the provisos of C08 (re-back-propagate used graphs, reset anything). Such histories are not
+	// behaviours of the machine and are not validated; they only have to return without panicking (C09).
+	NoProvisos bool
 }
 
 type History struct {
@@ -329,6 +332,9 @@ func bcastable(src, dst []int) bool {
 }
 
 func (d *driver) bpOK(r int) bool {
+	if d.o.NoProvisos {
+		return true
+	}
 	re := map[int]bool{}
 	d.reach(r, re)
 	for x := range re {
@@ -348,6 +354,16 @@ func (d *driver) backprop() bool {
 }
 
 func (d *driver) backpropFrom(r int) bool {
+	if d.o.NoProvisos {
+		// errors are acceptable here, panics are not (the caller recovers and reports them)
+		tensor.BackPropagate(d.nodes[r-1].t)
+		for _, n := range d.nodes {
+			if g := n.t.Gradient(); g != nil {
+				bind.Read(g)
+			}
+		}
+		return true
+	}
 	hidden := map[any][2]int{} // hidden broadcast context -> logical edge (y, k)
 	tensor.VerifSetSink(func(e tensor.VerifEvent) {
 		switch e.Kind {
@@ -444,6 +460,15 @@ func (d *driver) backpropFrom(r int) bool {
 
 func (d *driver) reset() {
 	t := d.pick()
+	if d.o.NoProvisos {
+		tr := d.rng.Intn(2) == 0
+		n := d.nodes[t-1]
+		delete(d.ctxID, tensor.VerifContext(n.t))
+		n.t.ResetGradContext(tr)
+		d.ctxID[tensor.VerifContext(n.t)] = t
+		n.tracked, n.spent, n.wired, n.args = tr, false, false, nil
+		return
+	}
 	for z := range d.nodes {
 		nz := d.nodes[z]
 		if nz.wired && !nz.spent && z+1 != t {
@@ -461,4 +486,16 @@ func (d *driver) reset() {
 	d.ctxID[tensor.VerifContext(n.t)] = t
 	n.tracked, n.spent, n.wired, n.args = tr, false, false, nil
 	d.ev = append(d.ev, Event{"ev": "reset", "id": t, "tracked": tr})
+}
+
+// RunCrashOnly runs a proviso-free history and reports a panic (with the number of steps executed) if one occurs.
+func RunCrashOnly(seed int64, o Opts) (panicked string) {
+	o.NoProvisos = true
+	defer func() {
+		if r := recover(); r != nil {
+			panicked = fmt.Sprint(r)
+		}
+	}()
+	Run(seed, o)
+	return ""
 }
